@@ -529,32 +529,38 @@ def any_event(ch, pc, topics, visible, depth, width=None, alias_prob=2, taken=()
     return ('disj', tuple(evs)), ()
 
 
-def properties(ch, depth=3, chaos=0, wild_time=False, max_width=4, meta=True, schemas_out=None):
+def properties(ch, depth=3, chaos=0, wild_time=False, max_width=4, meta=True, schemas_out=None, shape=None):
     """A sanity-correct property with schema-consistent predicates.
 
+    shape: None (random) or (scope_kind, pattern_kind, {role: width}) to fix the skeleton.
     Returns (prop, info) with info = {'topics': {topic: schema}, 'aliases': {alias: topic-schema}}.
     """
-    ntopics = ch.int(2, 6)
+    ntopics = ch.int(2, 6) if shape is None else max(4, ch.int(4, 6))
     topics = ch.sample(TOPICS, min_size=ntopics, max_size=ntopics, unique=True)
     topic_schemas = {t: schemas(ch, depth=1, small=True) for t in topics}
     pc = PropCtx(topic_schemas, chaos=chaos)
-    sk = ch.pick(SCOPES)
-    pk = ch.pick(PATTERNS)
-    widths = [w for w in [1, 1, 1, 2, 2, 3, 4] if w <= max_width]
+    if shape is None:
+        sk = ch.pick(SCOPES)
+        pk = ch.pick(PATTERNS)
+        widths = [w for w in [1, 1, 1, 2, 2, 3, 4] if w <= max_width]
+        width = lambda role: ch.pick(widths)  # noqa: E731
+    else:
+        sk, pk, wmap = shape
+        width = lambda role: wmap[role]  # noqa: E731
     act = term = trig = None
     act_aliases = ()
     if sk in ('after', 'after_until'):
-        act, act_aliases = any_event(ch, pc, topics, (), depth, width=ch.pick(widths))
+        act, act_aliases = any_event(ch, pc, topics, (), depth, width=width('activator'))
     if pk in ('existence', 'absence'):
-        beh, _ = any_event(ch, pc, topics, act_aliases, depth, width=ch.pick(widths))
+        beh, _ = any_event(ch, pc, topics, act_aliases, depth, width=width('behaviour'))
     elif pk == 'requirement':
-        beh, b_al = any_event(ch, pc, topics, act_aliases, depth, width=ch.pick(widths))
-        trig, _ = any_event(ch, pc, topics, act_aliases + b_al, depth, width=ch.pick(widths))
+        beh, b_al = any_event(ch, pc, topics, act_aliases, depth, width=width('behaviour'))
+        trig, _ = any_event(ch, pc, topics, act_aliases + b_al, depth, width=width('trigger'))
     else:
-        trig, t_al = any_event(ch, pc, topics, act_aliases, depth, width=ch.pick(widths))
-        beh, _ = any_event(ch, pc, topics, act_aliases + t_al, depth, width=ch.pick(widths))
+        trig, t_al = any_event(ch, pc, topics, act_aliases, depth, width=width('trigger'))
+        beh, _ = any_event(ch, pc, topics, act_aliases + t_al, depth, width=width('behaviour'))
     if sk in ('until', 'after_until'):
-        term, _ = any_event(ch, pc, topics, act_aliases, depth, width=ch.pick(widths))
+        term, _ = any_event(ch, pc, topics, act_aliases, depth, width=width('terminator'))
     bound = time_bounds(ch, wild=wild_time)
     md = ()
     if meta:
@@ -568,6 +574,26 @@ def properties(ch, depth=3, chaos=0, wild_time=False, max_width=4, meta=True, sc
     prop = ('prop', md, ('scope', sk, act, term), ('pat', pk, trig, beh, bound))
     info = {'topics': topic_schemas, 'aliases': dict(pc.alias_schema)}
     return prop, info
+
+
+def all_shapes(max_width=4):
+    """Every (scope kind, pattern kind, widths per present event position)."""
+    import itertools
+
+    out = []
+    for sk in SCOPES:
+        for pk in PATTERNS:
+            roles = []
+            if sk in ('after', 'after_until'):
+                roles.append('activator')
+            if sk in ('until', 'after_until'):
+                roles.append('terminator')
+            if pk not in ('existence', 'absence'):
+                roles.append('trigger')
+            roles.append('behaviour')
+            for ws in itertools.product(range(1, max_width + 1), repeat=len(roles)):
+                out.append((sk, pk, dict(zip(roles, ws))))
+    return out
 
 
 def standalone_predicates(ch, depth=4, chaos=0):
